@@ -96,9 +96,15 @@ func (e *Engine) verifyFunc(key string) (u *Unit, err error) {
 			u.note("implicit precondition: pointer receiver is not nil (checked at every call site under contract)")
 		}
 	}
-	for _, b := range bindings {
+	for i, b := range bindings {
 		if t, ok := b.(Term); ok && t.T.K == KRef {
 			u.assume(not(eq(t, Term{"0", t.T})))
+			// captured variables are distinct cells
+			for _, b2 := range bindings[:i] {
+				if t2, ok := b2.(Term); ok && t2.T.K == KRef {
+					u.assume(not(eq(t, t2)))
+				}
+			}
 		}
 	}
 	pre := st.clone()
@@ -184,13 +190,14 @@ func (e *Engine) verifyLemma(name string) (u *Unit, err error) {
 		}
 		idx := -1
 		for i, b := range x.BindNames {
-			if b == ax.Induct {
+			if b == strings.TrimSuffix(ax.Induct, "*") {
 				idx = i
 			}
 		}
 		if idx < 0 {
 			return nil, fmt.Errorf("lemma %s: induction variable %s not bound", name, ax.Induct)
 		}
+		indVar := strings.TrimSuffix(ax.Induct, "*")
 		rest := &SX{Op: "forall", Args: x.Args}
 		for i := range x.BindNames {
 			if i != idx {
@@ -198,17 +205,32 @@ func (e *Engine) verifyLemma(name string) (u *Unit, err error) {
 				rest.BindTypes = append(rest.BindTypes, x.BindTypes[i])
 			}
 		}
+		general := strings.HasSuffix(ax.Induct, "*")
+		consts := map[string]Term{}
+		if !general {
+			// simple induction: the other binders are fixed constants shared by hypothesis and goal
+			for i, bn := range rest.BindNames {
+				consts[bn] = u.declare("ind_"+bn, e.sortByName(u.tc, rest.BindTypes[i], ax.Pkg))
+			}
+		}
 		body := func(k Term) Term {
 			n := *env
-			n.bound = map[string]Term{ax.Induct: k}
+			n.bound = map[string]Term{indVar: k}
 			if len(rest.BindNames) == 0 {
+				return n.evalBool(x.Args[0])
+			}
+			if !general {
+				for bn, c := range consts {
+					n.bound[bn] = c
+				}
 				return n.evalBool(x.Args[0])
 			}
 			return n.evalBool(rest)
 		}
 		base := body(Term{"0", sInt})
+		nb := len(u.items)
 		u.oblige("lemma."+name, "base", "", mkBool(true), base, ax.Src, "")
-		// remove the assumption of base that oblige added (harmless but keep step independent)
+		u.items = u.items[:nb] // the base case is not an assumption of the step
 		k := u.declare("ind_k", sInt)
 		u.assume(le(Term{"0", sInt}, k))
 		u.assume(body(k))
